@@ -246,3 +246,19 @@ Proof.
   intros H. split; [apply decode_complete, CanonSeq_WfSeq, H|].
   induction H as [|a v b vs Ha Hb IH]; [reflexivity|]. cbn [map concat]. rewrite IH, (Canon_encode a v Ha). reflexivity.
 Qed.
+
+(* consequences of the round trip: the encoder is injective on what a BValue can hold *)
+Theorem encode_seq_injective vs1 vs2 : forallb wf_value vs1 = true -> forallb wf_value vs2 = true ->
+  concat (map encode vs1) = concat (map encode vs2) -> vs1 = vs2.
+Proof.
+  intros H1 H2 E. pose proof (decode_encode vs1 H1) as D1. pose proof (decode_encode vs2 H2) as D2.
+  rewrite E in D1. rewrite D1 in D2. injection D2 as ->. reflexivity.
+Qed.
+
+Theorem encode_injective v1 v2 : wf_value v1 = true -> wf_value v2 = true -> encode v1 = encode v2 -> v1 = v2.
+Proof.
+  intros H1 H2 E.
+  assert (L : [v1] = [v2]).
+  { apply encode_seq_injective; cbn [forallb map concat]; rewrite ?H1, ?H2, ?app_nil_r; try reflexivity. exact E. }
+  injection L as ->. reflexivity.
+Qed.
